@@ -7,7 +7,8 @@ if ! git apply "$P" 2>/dev/null; then echo "patch does not apply"; exit 2; fi
 cd /verif
 /venv/bin/python -m vh.check "$ID" --tier "$TIER" > /tmp/seedtest.$$.log 2>&1
 RC=$?
-grep -E "^(VIOLATION|KNOWN-FINDING|MACHINERY)" /tmp/seedtest.$$.log | cut -c1-260 | head -8
-echo "exit=$RC"
+grep -E "^(VIOLATION|MACHINERY)" /tmp/seedtest.$$.log | cut -c1-200 | head -3
+grep -A1 -E "^VIOLATION" /tmp/seedtest.$$.log | grep signature | cut -c1-220 | head -4
+echo "exit=$RC violations=$(grep -c '^VIOLATION' /tmp/seedtest.$$.log) (unknown cases: $(/venv/bin/python -c "import json;print(json.load(open('/verif/evidence/$ID.json')).get('violations'))" 2>/dev/null))"
 rm -f /tmp/seedtest.$$.log
 cd /repo && git checkout -- . && git clean -fdq pymarkdown
